@@ -20,7 +20,8 @@ W_RULES = [
 
 UNIT = dict(
     name="writer_write",
-    props=["C04", "C01", "C07", "C10"],
+    props=["C04", "C01", "C07", "C10", "C06"],
+    implicit_props=["C04", "C01", "C07", "C10"],
     prelude=["core_types.rs", "str_ext.rs", "engine.rs", "sys_model.rs"],
     assumptions=[
         "A-SEQ / A-LOCK: the two writer mutexes are held for the whole call (they are, by construction) and nobody else touches the active block",
@@ -91,6 +92,8 @@ UNIT = dict(
                  ("C04:failed_append_leaves_no_trace", "ret is Err ==> topic_log(*final(self), *final(sys)) == topic_log(*old(self), *old(sys))"),
                  ("C01:successful_append_extends_the_topic_log_by_exactly_this_payload", "ret is Ok ==> topic_log(*final(self), *final(sys)) == topic_log(*old(self), *old(sys)).push(data@)"),
                  ("C01,C07:writer_stays_wellformed", "wf_writer(final(self).current_block, final(self).current_offset, *final(sys)) && wf_chain(final(self).reader.chain_log@, final(self).current_block, final(self).current_offset, *final(sys))"),
+                 ("C06,C07:every_header_written_records_the_end_of_the_block_it_is_written_into",
+                  "ret is Ok ==> entry_written(final(sys).files@[final(self).current_block.mmap.file], final(self).current_block.offset + final(self).current_offset - (PREFIX_META_SIZE + data@.len()), data@, old(self).col@, (final(self).current_block.offset + final(self).current_block.limit) as u64)"),
                  ("C04:append_never_renames_the_topic", "final(self).col == old(self).col"),
                  ("C10:with_SyncEach_an_acknowledged_append_was_flushed_after_it_was_written", "(old(self).fsync_schedule is SyncEach && ret is Ok) ==> final(sys).synced@.contains(final(self).current_block.mmap.file)"),
              ]),
